@@ -13,11 +13,13 @@ sys.path.insert(1, os.environ.get("LIQUER_REPO", "/repo"))
 
 
 def main():
+    import logging
+    logging.disable(logging.CRITICAL)
     mode, pid = sys.argv[1], sys.argv[2]
     mod = importlib.import_module("replay." + pid.lower())
     buf = io.StringIO()
     try:
-        with contextlib.redirect_stdout(buf):
+        with contextlib.redirect_stdout(buf), contextlib.redirect_stderr(io.StringIO()):
             if mode == "replay":
                 doc = json.load(open(sys.argv[3]))
                 res = mod.replay(doc)
